@@ -6,5 +6,7 @@ pub mod rng;
 pub mod sem_util;
 pub mod sx;
 pub mod market_h;
+pub mod graph_big;
 pub mod hash_util;
 pub mod table_actor;
+pub mod graph_small;
